@@ -3876,11 +3876,47 @@ def is_filter_pushdown_available(expr, parent, dependents, allow_reduction=True)
     if len(parents) == 1:
         return True
 
+    if not isinstance(expr, Elemwise) and not _reads_rows_elemwise(
+        parent.predicate, expr, allow_reduction
+    ):
+        # expr drops, duplicates or reorders rows, so a predicate that looks at
+        # more than one row at a time (cumsum, shift, diff, map_partitions, ...)
+        # is different below expr
+        return False
+
     # We have to see if the non-filter ops are all exclusively part of the predicates
     others = {e._name for e in parents if not isinstance(e, Filter)}
     return _check_dependents_are_predicates(
         expr, others, parent, dependents, allow_reduction
     )
+
+
+def _reads_rows_elemwise(predicate, expr, allow_reduction=True):
+    """Whether ``predicate`` reads ``expr`` through element-wise operations only
+
+    Only then does a row of the predicate depend on nothing but the same row of
+    ``expr``, i.e. the predicate can be evaluated on a superset or a permutation
+    of the rows of ``expr``. Reductions don't depend on the order of the rows,
+    so they are fine as well as long as the set of rows doesn't change.
+    """
+    allowed = (Elemwise,)
+    if allow_reduction:
+        allowed += (ApplyConcatApply, TreeReduce, ShuffleReduce)
+    readers = defaultdict(list)
+    for e in predicate.walk():
+        if e._name != expr._name:
+            for dep in e.dependencies():
+                readers[dep._name].append(e)
+    stack, seen = [expr._name], set()
+    while stack:
+        for e in readers[stack.pop()]:
+            if e._name in seen:
+                continue
+            seen.add(e._name)
+            if not isinstance(e, allowed):
+                return False
+            stack.append(e._name)
+    return True
 
 
 def rewrite_filters(predicate):
